@@ -1,4 +1,86 @@
-import EE.Model.Program
+import EE.Lemmas.Congr
+import EE.Lemmas.StdInv
+import EE.Lemmas.Tie
+/-! # C14 — handlers may re-enter the engine without deadlock
+
+Model: `World.ctxHeld` / `regHeld` say that the evaluating context's mutex / a registry mutex is
+currently held by the evaluating thread; `withCtx` / `withRegs` are `lock(); map operation;
+drop guard` and report `deadlock` when the mutex is already held (std's mutex is not re-entrant).
+A handler is an arbitrary function on worlds, so it can call anything of the engine's API again,
+including `withCtx` on the evaluating context (= locking the context's public handle).
+`World.Clean` = no engine lock held or poisoned. -/
 namespace EE.Props.C14
-theorem placeholder : True := trivial
+open EE EngineM
+
+variable {σ : Type}
+
+def NoDeadlock : Fault → Prop := fun f => f ≠ .deadlock
+
+/-- Handlers that themselves keep the lock discipline (whatever else they do: re-enter, fail, panic). -/
+abbrev HandlersClean (inv : Inv σ) : Prop := InvKeeps World.Clean NoDeadlock inv
+
+/-- The outer evaluation never deadlocks and leaves no engine lock held or poisoned, for every
+tree, whatever the handlers do, at any nesting depth of re-entrancy (handlers are arbitrary). -/
+theorem exec_never_deadlocks (inv : Inv σ) (hinv : HandlersClean inv) (t : AST) (w : World σ) (hw : w.Clean) :
+    (exec inv t w).1.isDeadlock = false ∧ (exec inv t w).2.Clean := by
+  have h := Keeps.exec (A := NoDeadlock) (by simp [NoDeadlock]) stable_clean hinv t w hw
+  refine ⟨?_, h.1⟩
+  have := h.2
+  cases hr : (exec inv t w).1 <;> simp_all [NoDeadlock, Res.fault, Res.isDeadlock]
+
+/-- A handler semantics that *refuses to run* (reports `deadlock`) when invoked while any engine
+lock is held — what a handler that locks the same mutex again would experience. -/
+def guarded (inv : Inv σ) : Inv σ := fun h args w =>
+  if w.ctxHeld = false ∧ w.ctxPoisoned = false ∧ w.regHeld = false ∧ w.regPoisoned = false then inv h args w
+  else (.deadlock, w)
+
+/-- Every handler invocation of an evaluation — by call `f(..)`, by bare name `f`, as prefix,
+infix or postfix operator — happens with **no engine lock held**: replacing every handler by its
+`guarded` version changes nothing. -/
+theorem invoke_holds_no_lock (inv : Inv σ) (hinv : HandlersClean inv) (t : AST) (w : World σ) (hw : w.Clean) :
+    exec (guarded inv) t w = exec inv t w := by
+  refine (EqOn.exec (A := NoDeadlock) (by simp [NoDeadlock]) stable_clean hinv (fun hd args w' hw' => ?_) t w hw).symm
+  obtain ⟨h1, h2, h3, h4⟩ := hw'
+  simp [guarded, h1, h2, h3, h4]
+
+/-- The API actions a handler can re-enter with are themselves clean: locking the evaluating
+context's handle, reading or writing a registry (`register_*`), a nested evaluation. Hence handlers
+built from them, nested to any depth, satisfy `HandlersClean`. -/
+theorem api_actions_clean (inv : Inv σ) (hinv : HandlersClean inv) :
+    (∀ {α : Type} (f : CtxMap → α × CtxMap), Keeps World.Clean NoDeadlock (withCtx f : EngineM σ α)) ∧
+    (∀ {α : Type} (f : Regs → α × Regs), Keeps World.Clean NoDeadlock (withRegs f : EngineM σ α)) ∧
+    (∀ t, Keeps World.Clean NoDeadlock (exec inv t)) := by
+  refine ⟨fun f => Keeps.withCtx (by simp [NoDeadlock]) stable_clean f, fun f w hw => ?_, fun t => Keeps.exec (by simp [NoDeadlock]) stable_clean hinv t⟩
+  rw [withRegs_clean hw]
+  exact ⟨hw, by simp [NoDeadlock, Res.fault]⟩
+
+/-- With the built-in handlers plus user handlers that keep the discipline. -/
+theorem exec_std (userInv : Nat → List Value → EngineM σ Value)
+    (hu : ∀ id args, Keeps World.Clean NoDeadlock (userInv id args)) (t : AST) (w : World σ) (hw : w.Clean) :
+    (exec (stdInv userInv) t w).1.isDeadlock = false ∧ (exec (stdInv userInv) t w).2.Clean :=
+  exec_never_deadlocks _ (stdInv_keeps (by simp [NoDeadlock]) userInv hu) t w hw
+
+/-- Tie to the source (regenerated fact, kernel-checked on every run): while any guard is alive
+only std map/guard methods and constructors are called, and no second lock is taken. -/
+theorem no_call_under_lock : ∀ s ∈ Gen.lockSites, s.otherCalls = [] ∧ s.nestedLocks = 0 := EE.Tie.no_call_under_lock
+
+/-! ## Non-vacuity: the model *can* deadlock.
+`ctxValueUnderLock` is `Context::value` as it was before the repair (the handler runs while the
+context guard is alive); a context function that locks its own context's handle then deadlocks,
+and one that panics poisons the context. The faithful `ctxValue` does neither. -/
+def ctxValueUnderLock (inv : Inv σ) (n : Name) : EngineM σ Value :=
+  holdingCtx fun w => match alookup n w.ctx with
+    | none => (.ok Value.none, w)
+    | some (.var v) => (.ok v, w)
+    | some (.fn h) => invoke inv h [] w
+
+def lockingInv : Inv Unit := fun _ _ => withCtx fun m => (Value.ofInt m.length, m)
+def w0 : World Unit := { regs := Regs.empty, ctx := [(['f'], .fn (.user 0))], user := () }
+
+example : (ctxValueUnderLock lockingInv ['f'] w0).1.isDeadlock = true := by rfl
+example : (ctxValue lockingInv ['f'] w0).1.isOk = true := by rfl
+example : HandlersClean lockingInv := fun _ _ => Keeps.withCtx (by simp [NoDeadlock]) stable_clean _
+example : (exec lockingInv (.binary ['+'] (.ref ['f']) (.lit (.num Dec.one))) w0).1.isDeadlock = false :=
+  (exec_never_deadlocks lockingInv (fun _ _ => Keeps.withCtx (by simp [NoDeadlock]) stable_clean _) _ w0 (by simp [World.Clean, w0])).1
+
 end EE.Props.C14
